@@ -41,13 +41,19 @@ def layout():
         # plain_fn has the same declared parameter names as K's kfun but no keyword arguments
         "other/o1.cmake": fsbox.cmake_content("o1") + "\nfunction(plain_fn a)\nendfunction()\nmacro(plain_mac)\nendmacro()\n",
         "other/in/o2.cmake": T_TEXT,
+        # two files that differ only in the letter case of the extension (both map to one page: the later one wins)
+        "other/twin.cmake": fsbox.cmake_content("twin-lower"), "other/twin.CMake": fsbox.cmake_content("twin-mixed"),
+        # a tree whose path begins with the characters of the output directory's path ('out' / 'out-tree')
+        "out-tree/top.cmake": fsbox.cmake_content("top"), "out-tree/modules/greet.cmake": fsbox.cmake_content("greet"),
+        "out-tree/modules/deep/x.cmake": fsbox.cmake_content("x"),
         "strip.yaml": "input:\n  function_parameter_name_strip_regex: '^_'\n  macro_parameter_name_strip_regex: '^_'\n"
                       "  member_parameter_name_strip_regex: '^_'\nrst:\n  module_path_separator: '/'\n",
     }
 
 
 INPUTS = {"K": "kdir/kfile.cmake", "D": "dtree", "D2": "other", "T": "tfile.cmake", "E": "empty.cmake",
-          "DS": "dtree/sub"}       # DS: a sub-directory of D given as an input of its own
+          "DS": "dtree/sub",       # DS: a sub-directory of D given as an input of its own
+          "OT": "out-tree"}        # OT: its path starts with the output directory's path
 
 CLI = ("import sys; sys.path.insert(0, %r); import warnings; warnings.filterwarnings('ignore'); import cminx; "
        "cminx.main(sys.argv[1:])")
@@ -292,7 +298,7 @@ def run(ctx):
         ctx.violation({"kind": "reference"}, compare(R2, R, "reference under hash seed 4242"), cls="bytes hash-seed")
     R = {"default": R, "strip": reference("0", "strip"), "excl": reference("0", "excl"), "follow": reference("0", "follow"),
          "excl2": reference("0", "excl2")}
-    names = [x for x in INPUTS if x != "DS"]
+    names = [x for x in INPUTS if x not in ("DS", "OT")]
     n = 3 if quick else 4
     hjobs = []
     for k in range(1, n + 1):
@@ -322,6 +328,7 @@ def run(ctx):
             for d1, d2 in itertools.combinations(ds, 2):
                 if d1[0] != d2[0]:
                     ejobs.append((x, (d1, d2)))
+    ejobs += [("OT", ()), ("OT", (("cwd", "inside"),)), ("OT", (("spelling", "abs"),)), ("OT", (("settings", "excl"),))]
     # every listing order of D's top directory while two sibling files and two sibling directories are excluded
     ejobs += [("D", (d, ("settings", "excl2"))) for d in deviations("D") if d[0] == "listing"]
     ctx.sweep(functools.partial(run_env, RR=R), ejobs, space="environment deviations", selftest=3, isolate=False)
